@@ -21,9 +21,22 @@ func (ex *Exec) assertCalls(calleeName string, names []string, args []Val, p tok
 	if root.ct == nil || len(root.ct.Asserts) == 0 {
 		return
 	}
+	counted := map[string]bool{}
 	for i, cl := range root.ct.Asserts {
 		if !calleeMatches(calleeName, cl.Name) {
 			continue
+		}
+		if !counted[cl.Name] {
+			// ghost call counter, readable as called(<name>) in postconditions
+			counted[cl.Name] = true
+			if ex.st.ghost == nil {
+				ex.st.ghost = map[string]Term{}
+			}
+			old, ok := ex.st.ghost[cl.Name]
+			if !ok {
+				old = IntLit("0")
+			}
+			ex.st.ghost[cl.Name] = ex.c.define("g."+cl.Name, T(SInt, "(+ %s 1)", old.S))
 		}
 		env := root.contractEnv(ex.st, root.entry)
 		env.locals = ex == root
